@@ -290,7 +290,9 @@ def coherence(g, ir):
                         bad.append("block %s: .ir is not the IR" % b.uuid)
                 for k, e in bi.symbolic_expressions.items():
                     for y in e.symbols:
-                        if not isinstance(y, g.Symbol):
+                        if y is None:
+                            bad.append("expression at %d of %s names no symbol (None)" % (k, bi.uuid))
+                        elif not isinstance(y, g.Symbol):
                             bad.append("expression at %d of %s names a %s" % (k, bi.uuid, type(y).__name__))
                         elif id(y) not in ids:
                             bad.append("expression at %d of %s names a symbol that is not attached" % (k, bi.uuid))
@@ -330,7 +332,7 @@ def identity_check(g, ir):
             for bi in s.byte_intervals:
                 for k, e in bi.symbolic_expressions.items():
                     for y in e.symbols:
-                        if ir.get_by_uuid(y.uuid) is not y:
+                        if y is None or ir.get_by_uuid(y.uuid) is not y:
                             bad.append("symbol of the expression at %d of %s is a copy" % (k, bi.uuid))
     for e in ir.cfg:
         for end in (e.source, e.target):
